@@ -11,6 +11,7 @@ from functools import lru_cache
 from hashlib import md5
 
 from sympy import sympify
+from sympy.core.cache import clear_cache
 
 from unyt import dimensions as unyt_dims
 from unyt._unit_lookup_table import default_unit_symbol_lut, unit_prefixes
@@ -398,6 +399,11 @@ def _intern_dimensions(dims):
         if sym == base_dim and sym is not base_dim
     }
     if swaps:
+        if dims.args:
+            # sympy's constructors are memoised by *equality*: rebuilding a
+            # compound dimension could hand back the equal object (made while
+            # unpickling) that still holds the foreign symbols
+            clear_cache()
         dims = dims.xreplace(swaps)
     return dims
 
